@@ -679,9 +679,11 @@ func (h *H) checkLahqrLaqr04(id string, idx, n int, cls string) {
 						// (source comment: the documented minimum n clashes with
 						// Dlaqr23's optimum for small windows), so a query result
 						// below n is admissible and is used verbatim.
+						cs.rotMin = minlw // lengths other than the reported optimum stay in the documented domain
 						lwork, ok = cs.query("Dlaqr04", 1, n == 0, func(w []float64) {
 							h.impl.Dlaqr04(wantt, wantz, n, ilo, ihi, hb.s, hb.ld, wr, wi, iloz, ihiz, zb.s, zb.ld, w, -1, recur)
 						}, hb.s, zb.s, wr, wi)
+						cs.rotMin = 0
 						if !ok {
 							continue
 						}
